@@ -91,7 +91,9 @@ CLAIMED = {
                 "their ack, fail with TimeoutError after exactly the transmission budget; first-transmission IDs strictly "
                 "increase and retransmissions reuse their ID. The circuit may be torn down and re-opened mid-run "
                 "(region.disconnect, UseCircuitCode again, optionally alive only once that is acked): nothing of its previous "
-                "life may be retransmitted. One-off waiters with permanent subscribers right behind them; awaiters that give up.",
+                "life may be retransmitted. One-off waiters with permanent subscribers right behind them; awaiters that give up; "
+                "messages that may only come over the event queue arriving over UDP (refused, but acknowledged and their "
+                "acks counted).",
         "design_ref": "DESIGN.md §4 C19",
         "note": "Trusted: stub simulator framing; login/Seed/EQ HTTP bypassed (session built from login data as login() "
                 "does). A retransmission is only judged while fewer than 1000 newer reliable IDs lie in between (bursts of "
